@@ -8,7 +8,7 @@ replays, gap fills, logout, refused sends) and of C07 (two endpoints across link
 loss) are explored; every byte string handed to a transport must parse.
 """
 from mc import bfs, refs
-from props import c02_enc, c05, c07
+from props import c02_enc, c02_reuse, c05, c07
 
 CLAUSE = "every byte string a connection hands to its transport is accepted by an independent FIX parser"
 
@@ -73,7 +73,10 @@ class Sim7(c07.Sim):
 
 def run(ctx):
     c02_enc.run_part(ctx)
-    enc_rule = ctx.rule
+    c02_reuse.run_part(ctx)
+    enc_rule = ctx.rule + (" || reuse part: one message object encoded again after every sequence of <= 2 in-place edits "
+                           "(all positions incl. group items reached through accessors); R1 must accept each frame and a "
+                           "freshly built equal message must encode to the same bytes")
     # history part
     c05.CFG["S"], c05.CFG["T"] = c05.POOL[ctx.seed % len(c05.POOL)]
     c05.CFG["quick"] = True
@@ -110,4 +113,6 @@ def replay(ctx, rep):
         finally:
             s.close()
         return out
+    if isinstance(rep, dict) and rep.get("part") == "reuse":
+        return c02_reuse.replay_part(ctx, rep)
     return c02_enc.replay_part(ctx, rep)
